@@ -131,7 +131,7 @@ Lemma pkce_token_state cfg s cl key v vh :
 Proof.
   unfold pkce_token.
   destruct (find (pkce (st s)) key) as [pr|]; [destruct key as [k|]|]; cbn [fst].
-  - right. exists k.
+  - left.
     destruct (pkce_validate cfg (r_challenge pr) (r_method pr) (r_cl pr)); [reflexivity|].
     repeat match goal with |- context [if ?c then _ else _] => destruct c end; reflexivity.
   - left. destruct (Nat.eqb (String.length v) 0); reflexivity.
@@ -199,7 +199,7 @@ Proof.
     destruct Hs1 as [Hc1 [Ha1 [Hr1 Hn1]]].
     match goal with |- context [grant_tokens ?s2 ?stored ?w] =>
       pose proof (Inv_grant_tokens s2 stored w) as G; destruct (grant_tokens s2 stored w) as [s3 minted] end.
-    cbn [fst] in *. apply G; clear G.
+    cbn [fst] in *. apply (Inv_set_pkce s3). apply G; clear G.
     + apply Inv_invalidate_code. assumption.
     + cbn. rewrite Hn1. exact (proj2 (inv_code_fresh s _ _ _ I Ec)).
     + cbn [st set_store]. destruct (invalidate_code_tables (st s1) k) as [Ta [Tr _]].
